@@ -65,6 +65,15 @@ let normalise_stress (ws : string list) : string list =
       | [] -> (List.rev acc, [])
     in
     let win, post = window [] rest in
+    (* a run() logged inside the window may have been overwritten by the final store or not: the value of
+       run_ is unknown to the monitors until the next run()/reboot(), so the answers in between are dropped
+       (the schedule search below decides these cases exactly) *)
+    let post =
+      if List.mem "run" win then begin
+        let known = ref false in
+        List.filter (fun x -> if x = "run" || x = "reboot" then known := true; !known || not (starts x "isrun")) post
+      end else post
+    in
     pre @ ("exit" :: win) @ post
   end
 
@@ -93,7 +102,9 @@ let diagnose (tr : event list) : string list =
           | EInit :: _ -> "init-after-exit"
           | EStep _ :: t -> if runreq t then "step-number-out-of-sequence" else "step-before-run"
           | EExit :: t -> if exit_cause t then "exit-without-epoch" else "exit-without-teardown-or-false-run-condition"
-          | EQRun _ :: _ -> "running-after-exit-without-run"
+          | EQRun true :: _ -> "running-after-exit-without-run"
+          | EQRun false :: _ -> "not-running-although-run-was-requested-last"
+          | EQStep _ :: _ -> "step-number-answer-inconsistent-with-history"
           | _ -> "unknown"
       in
       [ why; Printf.sprintf "at-event-%d" (List.length s); (match s with e :: _ -> string_of_event e | [] -> "-") ]
